@@ -453,6 +453,10 @@ def variant_table(body, prog, enum_path):
                 else:
                     chosen = e[3]
         res = describe_result(prog, p.ret)
+        try:
+            hash(res)
+        except TypeError:       # a computed result (e.g. a range comparison on the discriminant): opaque, never equal to a constant
+            res = ("opaque", repr(res))
         if chosen is not None:
             table.setdefault(by_discr.get(chosen, "?%s" % chosen), set()).add(res)
         elif excluded is not None:
